@@ -136,11 +136,18 @@ func customModel() map[string]m.CustomFn {
 			return s, nil
 		},
 		"c_fail": func(a []interface{}, _ int64) (interface{}, error) { return nil, m.ErrCustom },
+		// c_re is the identity; C07 registers a version that re-enters the program it is part of
+		"c_re": func(a []interface{}, _ int64) (interface{}, error) {
+			if len(a) != 1 {
+				return nil, m.ErrCustom
+			}
+			return a[0], nil
+		},
 		"c_cnt":  func(a []interface{}, calls int64) (interface{}, error) { return calls, nil },
 	}
 }
 
-var customNames = []string{"c_cat", "c_cnt", "c_fail", "c_id", "c_not", "c_sum"}
+var customNames = []string{"c_cat", "c_cnt", "c_fail", "c_id", "c_not", "c_re", "c_sum"}
 
 // Log records the effects the engine performs, in order.
 type Log struct {
@@ -211,11 +218,25 @@ func maskName(mask int) string {
 	return s
 }
 
+const directiveVariants = 6
+
 // directive returns a ;;;; comment prefix expressing mask, spelled in one of several ways.
 func directive(mask, variant int) string {
 	names := []string{"constant_folding", "reduce_nesting", "fast_evaluation", "reordering"}
 	b := func(i int) string { return strconv.FormatBool(mask&(1<<i) != 0) }
-	switch variant % 4 {
+	switch variant % directiveVariants {
+	case 4: // a plain comment line first, then one directive line
+		p := make([]string, 4)
+		for i := range names {
+			p[i] = names[i] + ":" + b(i)
+		}
+		return ";; header comment\n;;;; " + strings.Join(p, ", ") + "\n"
+	case 5: // blank line and plain comments around one directive per line
+		s := "\n  ; note\n"
+		for i := range names {
+			s += ";;;; " + names[i] + ": " + b(i) + "\n; between\n"
+		}
+		return s
 	case 0: // one line, all four
 		p := make([]string, 4)
 		for i := range names {
